@@ -204,7 +204,18 @@ namespace jsonschema {
                     patch);
             }
 
-            return referred_schema_->validate(this_context, instance, instance_location, results, reporter, patch);
+            if (context.is_following(referred_schema_, std::addressof(instance)))
+            {
+                return reporter.error(validation_message(this->keyword(), 
+                    this_context.eval_path(),
+                    this->schema_location(), 
+                    instance_location, 
+                    "Schema reference " + this->schema_location().string() + " refers back to itself without consuming any of the instance"),
+                    patch);
+            }
+            eval_context<Json> ref_context(context, this->keyword(), referred_schema_, std::addressof(instance));
+
+            return referred_schema_->validate(ref_context, instance, instance_location, results, reporter, patch);
         }
 
         walk_state do_walk(const eval_context<Json>& context, const Json& instance, 
@@ -214,7 +225,11 @@ namespace jsonschema {
             {
                 return walk_state::advance;
             }
-            eval_context<Json> this_context(context, this->keyword());
+            if (context.is_following(referred_schema_, std::addressof(instance)))
+            {
+                return walk_state::advance;
+            }
+            eval_context<Json> this_context(context, this->keyword(), referred_schema_, std::addressof(instance));
             return referred_schema_->walk(this_context, instance, instance_location, reporter, patch);           
         }
     };
@@ -277,7 +292,15 @@ namespace jsonschema {
                 return result;
             }
 
-            return schema_ptr->validate(this_context, instance, instance_location, results, reporter, patch);
+            if (context.is_following(schema_ptr, std::addressof(instance)))
+            {
+                return reporter.error(this->make_validation_message(
+                    this_context.eval_path(),
+                    instance_location, 
+                    "Schema reference " + this->schema_location().string() + " refers back to itself without consuming any of the instance"), patch);
+            }
+            eval_context<Json> ref_context(context, this->keyword(), schema_ptr, std::addressof(instance));
+            return schema_ptr->validate(ref_context, instance, instance_location, results, reporter, patch);
         }
 
         walk_state do_walk(const eval_context<Json>& context, const Json& instance, 
@@ -308,7 +331,11 @@ namespace jsonschema {
             {
                 return walk_state::advance;
             }
-            eval_context<Json> this_context(context, this->keyword());
+            if (context.is_following(schema_ptr, std::addressof(instance)))
+            {
+                return walk_state::advance;
+            }
+            eval_context<Json> this_context(context, this->keyword(), schema_ptr, std::addressof(instance));
             return schema_ptr->walk(this_context, instance, instance_location, reporter, patch);
         }
     };
@@ -383,7 +410,15 @@ namespace jsonschema {
             //std::cout << "dynamic_ref_validator.do_validate " << "keywordLocation: << " << this->schema_location().string() << ", instanceLocation:" << instance_location.string() << "\n";
 
             eval_context<Json> this_context(context, this->keyword());
-            return schema_ptr->validate(this_context, instance, instance_location, results, reporter, patch);
+            if (context.is_following(schema_ptr, std::addressof(instance)))
+            {
+                return reporter.error(this->make_validation_message(
+                    this_context.eval_path(),
+                    instance_location, 
+                    "Schema reference " + this->schema_location().string() + " refers back to itself without consuming any of the instance"), patch);
+            }
+            eval_context<Json> ref_context(context, this->keyword(), schema_ptr, std::addressof(instance));
+            return schema_ptr->validate(ref_context, instance, instance_location, results, reporter, patch);
         }
 
         walk_state do_walk(const eval_context<Json>& context, const Json& instance, 
@@ -409,7 +444,11 @@ namespace jsonschema {
                 }
             }
 
-            eval_context<Json> this_context(context, this->keyword());
+            if (context.is_following(schema_ptr, std::addressof(instance)))
+            {
+                return walk_state::advance;
+            }
+            eval_context<Json> this_context(context, this->keyword(), schema_ptr, std::addressof(instance));
             return schema_ptr->walk(this_context, instance, instance_location, reporter, patch);
         }
     };
